@@ -13,7 +13,7 @@
 (*    dcR, dcM, dcS, dcC, dcD |-> UNKNOWN components,                      *)
 (*    cond   |-> [known, passed] whether the condition is determined ]     *)
 (***************************************************************************)
-EXTENDS ISA, Decode
+EXTENDS Media, Decode
 
 Exec(x, i) ==
   CASE i.k = "dp"   -> ExecDP(x, i)
@@ -38,6 +38,13 @@ Exec(x, i) ==
     [] i.k = "ldmx" -> ExecLDMx(x, i)
     [] i.k = "stmu" -> ExecSTMuser(x, i)
     [] i.k = "smc"  -> ExecSMC(x, i)
+    [] i.k = "mul"  -> ExecMul(x, i)
+    [] i.k = "hmul" -> ExecHMul(x, i)
+    [] i.k = "div"  -> ExecDiv(x, i)
+    [] i.k = "qarith" -> ExecQArith(x, i)
+    [] i.k = "sat"  -> ExecSat(x, i)
+    [] i.k = "par"  -> ExecParallel(x, i)
+    [] i.k = "misc" -> ExecMisc(x, i)
     [] i.k = "ls"   -> ExecLS(x, i)
     [] i.k = "lsd"  -> ExecLSD(x, i)
     [] i.k = "ldm"  -> ExecLDM(x, i)
@@ -46,7 +53,8 @@ Exec(x, i) ==
     [] i.k = "svc"  -> Raise(x, "svc")
     [] OTHER -> NotImpl(x, "spec-missing:" \o i.k)
 Executable == {"dp", "adr", "movw", "movt", "b", "bl", "blxr", "bx", "cbz", "it", "udf", "svc", "ls", "lsd", "ldm", "stm", "tb",
-               "msr", "mrs", "cps", "setend", "hint", "excret", "rfe", "srs", "ldmx", "stmu", "smc"}
+               "msr", "mrs", "cps", "setend", "hint", "excret", "rfe", "srs", "ldmx", "stmu", "smc",
+               "mul", "hmul", "div", "qarith", "sat", "par", "misc"}
 
 \* the fetch: act = [n |-> "Step"] reads memory at PC; act = [n |-> "Exec", w, len] uses the given word
 FetchInstr(x, act) ==
